@@ -190,3 +190,63 @@ Proof.
   - intros (j & x & N & P & E). subst. replace (Z.to_nat (0 + Z.of_nat j)) with j by lia. split; [lia|]. exists x. tauto.
   - intros [H (x & N & P)]. exists (Z.to_nat i), x. repeat split; [exact N|exact P|lia].
 Qed.
+
+(* ---------- selection strings ---------- *)
+Lemma first_occ_spec l : forall seen, NoDup (first_occ l seen) /\
+  forall x, In x (first_occ l seen) <-> (In x l /\ ~ In x seen).
+Proof.
+  induction l as [|y t IH]; intros seen; cbn [first_occ].
+  - split; [constructor|]. intros x. split; [intros []|intros [[] _]].
+  - destruct (memz y seen) eqn:M.
+    + destruct (IH seen) as [N S]. split; [exact N|]. intros x. rewrite S. apply memz_In in M. split.
+      * intros [I NS]. split; [right; exact I|exact NS].
+      * intros [[E|I] NS]; [subst; contradiction|split; assumption].
+    + destruct (IH (y :: seen)) as [N S]. assert (NM: ~ In y seen) by (intros I; apply memz_In in I; congruence). split.
+      * constructor; [|exact N]. intros I. apply S in I. destruct I as [_ NI]. apply NI. left. reflexivity.
+      * intros x. cbn [In]. rewrite S. cbn [In]. split.
+        -- intros [E|[I NS]]; [subst; split; [left; reflexivity|exact NM]|split; [right; exact I|tauto]].
+        -- intros [[E|I] NS]; [left; exact E|]. destruct (Z.eq_dec y x) as [E|NE]; [left; exact E|right; split; [exact I|tauto]].
+Qed.
+
+Lemma from_items_NoDup syms labels items : forall prev g l, from_items syms labels items prev g = Ok l -> NoDup l.
+Proof.
+  induction items as [|it rest IH]; intros prev g l H; cbn [from_items] in H.
+  - inversion H. apply first_occ_spec.
+  - destruct (match it, prev with IBare ss, Some e => Some (IIdx e ss) | IBare _, None => None | x, _ => Some x end) as [it'|]; [|discriminate].
+    destruct (negb (memz _ syms)); [discriminate|].
+    destruct it' as [e|e ss|e lab|ss]; try discriminate.
+    + eapply IH; exact H.
+    + destruct (memz 0 _); [discriminate|]. destruct (pick_sites _ _); [|discriminate]. eapply IH; exact H.
+    + destruct (positions _ 0 labels); [discriminate|]. eapply IH; exact H.
+Qed.
+
+(* a bare element selects exactly the atoms of that element, in atom order *)
+Lemma from_items_element syms labels e : memz e syms = true ->
+  from_items syms labels [IEl e] None [] = Ok (from_element syms e).
+Proof.
+  intros M. cbn [from_items]. rewrite M. cbn [negb group_set flat_map snd]. rewrite app_nil_r. f_equal.
+  assert (G: forall l seen, NoDup l -> (forall x, In x l -> ~ In x seen) -> first_occ l seen = l).
+  { induction l as [|y t IH]; intros seen N D; cbn [first_occ]; [reflexivity|]. inversion N; subst.
+    destruct (memz y seen) eqn:E; [apply memz_In in E; exfalso; apply (D y); [left; reflexivity|exact E]|].
+    f_equal. apply IH; [assumption|]. intros x I [Q|Q]; [subst; contradiction|apply (D x); [right; exact I|exact Q]]. }
+  apply G; [|intros x _ []].
+  assert (P: forall (l : list Z) k, StronglySorted Z.lt (positions (Z.eqb e) k l) /\ forall i, In i (positions (Z.eqb e) k l) -> k <= i).
+  { induction l as [|y t IHl]; intros k; cbn [positions]; [split; [constructor|intros i []]|].
+    destruct (IHl (k + 1)) as [S B]. destruct (e =? y); cbn [app].
+    - split; [constructor; [exact S|]|intros i [E|I]; [lia|specialize (B i I); lia]].
+      apply Forall_forall. intros i I. specialize (B i I). lia.
+    - split; [exact S|intros i I; specialize (B i I); lia]. }
+  apply sorted_NoDup. apply P.
+Qed.
+
+(* 'El.i' with 1 <= i <= count selects the i-th atom of that element *)
+Lemma from_items_site syms labels e i x : memz e syms = true -> 1 <= i ->
+  nth_error (from_element syms e) (Z.to_nat (i - 1)) = Some x ->
+  from_items syms labels [IIdx e [SOne i]] None [] = Ok [x].
+Proof.
+  intros M Hi N. cbn [from_items]. rewrite M. cbn [negb flat_map expand_site app memz existsb].
+  replace (0 =? i) with false by (symmetry; apply Z.eqb_neq; lia). cbn [orb].
+  unfold pick_sites. cbn [map]. replace (i - 1 <? 0) with false by (symmetry; apply Z.ltb_ge; lia).
+  unfold nthZ. replace (i - 1 <? 0) with false by (symmetry; apply Z.ltb_ge; lia). rewrite N. cbn [sequence option_map].
+  cbn [group_ext flat_map snd app first_occ memz existsb]. reflexivity.
+Qed.
